@@ -291,3 +291,13 @@ func (e *Engine) verifyBinding(b *Binding) *VC {
 	}
 	return vc
 }
+
+// ghostHeap: a named ghost set of byte strings per object (object id -> set), e.g. the keys deleted through a
+// database transaction. Written only by `ghostadd` clauses of trusted contracts, read by gin() in specifications.
+func ghostHeap(name string) (string, string) {
+	if strings.HasSuffix(name, "_ref") {
+		// a set of object references
+		return "Q:ghost_" + sanitize(name), "(Array Int (Array Int Bool))"
+	}
+	return "Q:ghost_" + sanitize(name), "(Array Int (Array (Seq Int) Bool))"
+}
